@@ -586,8 +586,14 @@ def check_C06(tier, seed, replay=None):
                          "operator tree vs the engine's result for abs, sqrt, unary minus, clamp, clamp_min, clamp_max (literals incl. NaN, +-Inf, "
                          "max < min), vector/scalar arithmetic and comparisons (both sides, bool) and scalar() over selectors; primitive floats",
                          40, 400, shards_quick=8, shards_thorough=32)
+    corr_h = _corr_generic("histcases", "C06", "Bucket.load / hist_step / bucket_quantile (le upper bounds as parsed, grouping of the bucket series into output "
+                           "series, per-step buckets in vector order, sort by upper bound, merging of equal bounds, monotonicity repair, bisection, "
+                           "interpolation; primitive floats) on the operand streams of the engine's own operator trees vs the engine's result for "
+                           "histogram_quantile(q, selector) (q a literal incl. NaN, <0, >1, or scalar(series); 0-4 histograms with 1-6 buckets, "
+                           "repeated/invalid/missing le, missing +Inf, non-monotonic, zero, NaN and infinite counts, gaps)", 25, 250,
+                           shards_quick=8, shards_thorough=32)
     # the operator trees of C06_pinned_subtree_is_evaluated_once (step-invariant subtrees, @ on selectors)
-    corr = _corr_multi(corr, corr_core("C06", ("tree",)))
+    corr = _corr_multi(corr, corr_h, corr_core("C06", ("tree",)))
     return ref_family_check("C06", tier, seed, [("func", 4000), ("epoch:func", 600), ("hist", 500), ("subpairs", 500)], [("func", 80000), ("deep", 20000), ("epoch:func", 15000), ("hist", 10000), ("subpairs", 10000)], corr=corr)
 
 
